@@ -82,8 +82,13 @@ type Case struct {
 	Frag        int               `json:"frag,omitempty"` // max bytes per body read
 	EOFWithData bool              `json:"eof_with_data,omitempty"`
 	Muts        []string          `json:"mutations,omitempty"`
-	EP          string            `json:"built_for,omitempty"`
-	RuleClass   string            `json:"rule_class,omitempty"`
+	// burst entry: Sub requests are served concurrently by Burst goroutines,
+	// Repeat times each, on the same mux (cross-request interference)
+	Sub       []*Case `json:"sub,omitempty"`
+	Burst     int     `json:"burst,omitempty"`
+	Repeat    int     `json:"repeat,omitempty"`
+	EP        string  `json:"built_for,omitempty"`
+	RuleClass string  `json:"rule_class,omitempty"`
 }
 
 func (c *Case) header() http.Header {
@@ -467,14 +472,30 @@ func shapeKey(c *Case, o *outcome) string {
 // ------------------------------------------------------------------ run
 
 type shardStats struct {
-	distinct map[string]int
-	counts   map[string]int
-	evals    int
+	distinct2 map[string]bool // (entry class, option mask) pairs exercised
+	distinct  map[string]int
+	counts    map[string]int
+	evals     int
+}
+
+func newStats() *shardStats {
+	return &shardStats{distinct: map[string]int{}, counts: map[string]int{}, distinct2: map[string]bool{}}
 }
 
 func (s *shardStats) count(k string, n int) { s.counts[k] += n }
 
+var combos = struct {
+	sync.Mutex
+	m map[string]bool
+}{m: map[string]bool{}}
+
 func (s *shardStats) flush(r *mon.Run) {
+	combos.Lock()
+	for k := range s.distinct2 {
+		combos.m[k] = true
+	}
+	r.Set("entry_x_option_mask_combinations_exercised", len(combos.m))
+	combos.Unlock()
 	r.Eval(s.evals)
 	for k := range s.distinct {
 		r.Distinct(k)
@@ -510,6 +531,8 @@ func record(r *mon.Run, st *shardStats, c *Case, o *outcome) {
 	}
 	st.evals++
 	st.count("requests_"+c.Entry, 1)
+	st.count(fmt.Sprintf("requests_with_option_mask_%d", c.Opts&7), 1)
+	st.distinct2[entryClass(c.Entry)+"/"+strconv.Itoa(c.Opts&7)] = true
 	if o.calls > 0 {
 		st.count("requests_reaching_a_handler", 1)
 	}
@@ -599,7 +622,7 @@ func buildSets(r *mon.Run, st *shardStats, rng *rand.Rand, shard, nshards, ngen 
 
 func runShard(r *mon.Run, shard, nshards, ncases, ngen int) {
 	rng := r.Rand(fmt.Sprintf("robust-shard-%d", shard))
-	st := &shardStats{distinct: map[string]int{}, counts: map[string]int{}}
+	st := newStats()
 	defer st.flush(r)
 	tp := newTestpbTarget()
 	std, err := newStdTarget()
@@ -648,7 +671,7 @@ func sampleOf(c *Case) any {
 	return s
 }
 
-const ruleText = "requests = grammar-aware mutations of valid requests (plus raw bytes) built for every endpoint of (a) the testpb services registered with their generated Register*Server functions, (b) the standard harness service, (c) generated rule sets (multi-segment ** variables, typed variables, nested fields, variables / body / response_body selectors on scalar, repeated, map and message fields, websocket rules with and without body) and hand-written hostile sets; mutations cover paths (near misses, token soup, 63/64/65 tokens, invalid UTF-8, huge segments), query keys walking the schema, header tables, bodies (JSON junk, deep JSON, invalid protobuf, varint prefixes of 1-11 bytes, broken gzip, gRPC frames with lying length / flag fields, 0-4-byte messages, broken base64, hostile WebSocket frames) and the status the handler returns (any code incl. 17 and out-of-range, hostile messages, details, headers, trailers). Entries: http, grpc (ProtoMajor 2), grpc-web, grpc-web-text, WebSocket upgrade on a plain recorder, on a hijackable in-memory connection and on a real listener, HTTP/1 and h2c on a real listener; every mask of {unary interceptor, stream interceptor, stats handler} plus small limits and an extra codec. Oracle: recover(), 20 s watchdog with goroutine dump, valid HTTP status, 'panic serving' in the server log, handlers' receive counter against the request size. distinct = (entry, target kind, option mask, first two mutation classes, outcome class)"
+const ruleText = "requests = grammar-aware mutations of valid requests (plus raw bytes) built for every endpoint of (a) the testpb services registered with their generated Register*Server functions, (b) the standard harness service, (c) generated rule sets (multi-segment ** variables, typed variables, nested fields, variables / body / response_body selectors on scalar, repeated, map and message fields, websocket rules with and without body) and hand-written hostile sets; mutations cover paths (near misses, token soup, 63/64/65 tokens, invalid UTF-8, huge segments), query keys walking the schema, header tables, bodies (JSON junk, deep JSON, invalid protobuf, varint prefixes of 1-11 bytes, broken gzip, gRPC frames with lying length / flag fields, 0-4-byte messages, broken base64, hostile WebSocket frames) and the status the handler returns (any code incl. 17 and out-of-range, hostile messages, details, headers, trailers). Entries: http, grpc (ProtoMajor 2), grpc-web, grpc-web-text, WebSocket upgrade on a plain recorder, on a hijackable in-memory connection and on a real listener, HTTP/1 and h2c on a real listener (server built by larking.NewServer); every mask of {unary interceptor, stream interceptor, stats handler} plus small limits and an extra codec. Two more lanes: bursts of 16 goroutines serving gzip-compressed requests concurrently on one mux (pooled state), and the standard service proxied to a real grpc-go back-end through RegisterConn. Oracle: recover(), 20 s watchdog with goroutine dump, valid HTTP status, 'panic serving' in the server log, handlers' receive counter against the request size. distinct = (entry, target kind, option mask, first two mutation classes, outcome class)"
 
 // RunC09 is the robustness check.
 func RunC09(r *mon.Run) {
@@ -665,7 +688,7 @@ func RunC09(r *mon.Run) {
 	var wg sync.WaitGroup
 	t0 := time.Now()
 	phase := os.Getenv("VERIF_ROBUST_PHASE") // development only: "inproc" or "sock"
-	for s := 0; s < nshards && phase != "sock"; s++ {
+	for s := 0; s < nshards && (phase == "" || phase == "inproc"); s++ {
 		wg.Add(1)
 		sem <- struct{}{}
 		go func(s int) {
@@ -675,11 +698,18 @@ func RunC09(r *mon.Run) {
 		}(s)
 	}
 	wg.Wait()
+	if phase == "" || phase == "inproc" {
+		runBursts(r)
+	}
 	t1 := time.Now()
-	if phase != "inproc" {
+	if phase == "" || phase == "sock" {
 		runSockets(r)
 	}
-	r.Set("phase_seconds", map[string]float64{"in_process": t1.Sub(t0).Seconds(), "real_listeners": time.Since(t1).Seconds()})
+	t2 := time.Now()
+	if phase == "" || phase == "proxy" {
+		runProxied(r)
+	}
+	r.Set("phase_seconds", map[string]float64{"in_process": t1.Sub(t0).Seconds(), "real_listeners": t2.Sub(t1).Seconds(), "proxied": time.Since(t2).Seconds()})
 	r.Assume("handlers are the harness's own (status, headers and replies chosen by the X-Vf-Act request header); a panic raised by harness code would be keyed by its own frame and is a harness bug")
 	r.Assume("a stream handler that receives until end-of-stream gives up after 2^17 messages (2^13 on real listeners); this is reported only when the request is smaller than that many bytes (x1100 when compressed), which no consuming implementation can produce")
 	r.Assume("memory exhaustion (decompression bombs) is not exercised")
@@ -697,8 +727,18 @@ func Replay(r *mon.Run, raw json.RawMessage) {
 		r.Inconclusive("replay: " + err.Error())
 		return
 	}
-	st := &shardStats{distinct: map[string]int{}, counts: map[string]int{}}
+	st := newStats()
 	defer st.flush(r)
+	if c.Entry == "burst" {
+		bt, err := t.get(c.Opts)
+		if err != nil {
+			r.Inconclusive("replay: " + err.Error())
+			return
+		}
+		n := execBurst(r, st, &c, bt)
+		fmt.Printf("replay: burst of %d goroutines x %d requests, %d violating requests (scheduling is not replayed: a silent replay does not refute the finding)\n", c.Burst, c.Repeat, n)
+		return
+	}
 	if strings.HasPrefix(c.Entry, "sock-") {
 		ss, err := newSockServer(t, c.Opts)
 		if err != nil {
@@ -727,6 +767,12 @@ func targetFor(c *Case) (*target, error) {
 		return newTestpbTarget(), nil
 	case "std":
 		return newStdTarget()
+	case "proxy":
+		p, err := newProxyTarget()
+		if err != nil {
+			return nil, err
+		}
+		return p.t, nil // the back-end lives until the process exits
 	case "rs":
 		if c.RS == nil {
 			return nil, fmt.Errorf("case has no rule set")
@@ -753,4 +799,121 @@ func sortedKeys(m map[string][]BStr) []string {
 	}
 	sort.Strings(ks)
 	return ks
+}
+
+// ---------------------------------------------------------------- bursts
+
+// gzipCase builds a valid request whose body (or frames) is gzip-compressed.
+func gzipCase(rng *rand.Rand, t *target) *Case {
+	for {
+		ep := t.eps[rng.Intn(len(t.eps))]
+		g := &genCtx{t: t, ep: ep}
+		var c *Case
+		if rng.Intn(3) == 0 {
+			g.rl = &ep.Rules[len(ep.Rules)-1]
+			c = baseGRPC(rng, g, pick(rng, []string{"grpc", "web"}))
+			if !g.gz {
+				continue
+			}
+		} else {
+			g.rl = &ep.Rules[rng.Intn(len(ep.Rules))]
+			if g.rl.Body == "" || g.rl.Verb == "WEBSOCKET" {
+				continue
+			}
+			c = baseHTTP(rng, g)
+			if len(c.Header["Content-Encoding"]) == 0 {
+				if len(c.Body) == 0 {
+					continue
+				}
+				c.Body = wire.Gzip(c.Body)
+				setH(c, "Content-Encoding", "gzip")
+			}
+			if rng.Intn(2) == 0 {
+				c.EOFWithData = true
+			}
+			if rng.Intn(3) == 0 {
+				c.Frag = 1 + rng.Intn(7)
+			}
+		}
+		c.EP = ep.Full
+		c.Muts = []string{"gzip"}
+		return c
+	}
+}
+
+// execBurst serves the sub-requests of a burst concurrently on one mux and
+// judges every execution (panic, wedge, status); it returns the number of
+// violating requests.
+func execBurst(r *mon.Run, st *shardStats, c *Case, bt *built) int {
+	var wg sync.WaitGroup
+	var mu sync.Mutex
+	bad := 0
+	for g := 0; g < c.Burst; g++ {
+		wg.Add(1)
+		go func(g int) {
+			defer wg.Done()
+			for i := 0; i < c.Repeat; i++ {
+				if wedgesSeen.Load() >= maxWedges {
+					return
+				}
+				sub := c.Sub[(g+i)%len(c.Sub)]
+				var gid atomic.Int64
+				resp := wire.Serve(gidHandler{bt.mux, &gid}, sub.request())
+				o := &outcome{gid: gid.Load(), wedged: resp.Wedged, dump: resp.Dump, panicked: resp.Panic, code: resp.Code, recvCap: spinCap}
+				if o.wedged {
+					wedgesSeen.Add(1)
+				}
+				vs, inc := judge(sub, o)
+				mu.Lock()
+				st.evals++
+				st.counts["requests_burst"]++
+				st.distinct["burst|"+sub.Entry+"|"+outcomeClass(sub, o)]++
+				if inc != "" {
+					r.Inconclusive(inc)
+				}
+				for _, v := range vs {
+					bad++
+					st.counts["violating_requests"]++
+					key := v.key
+					if o.panicked != nil {
+						// crashes caused by interference have no stable
+						// message: key by the larking frame only
+						key = "concurrent:panic@" + o.panicked.Frame
+					}
+					r.Violate(key, "in a burst of concurrent requests: "+v.what, c)
+				}
+				mu.Unlock()
+			}
+		}(g)
+	}
+	wg.Wait()
+	return bad
+}
+
+// runBursts is the cross-request phase: compressed requests of every shape
+// served concurrently on one mux (pooled decompressors, buffers).
+func runBursts(r *mon.Run) {
+	rng := r.Rand("robust-burst")
+	st := newStats()
+	defer st.flush(r)
+	std, err := newStdTarget()
+	if err != nil {
+		r.Inconclusive("harness: standard service: " + err.Error())
+		return
+	}
+	for _, t := range []*target{std, newTestpbTarget()} {
+		for _, opts := range []int{0, 7} {
+			bt, err := t.get(opts)
+			if err != nil {
+				continue
+			}
+			c := &Case{Entry: "burst", Target: t.Kind, Opts: opts, Burst: 16, Repeat: r.Pick(400, 20000)}
+			for i := 0; i < 12; i++ {
+				sub := gzipCase(rng, t)
+				sub.Target, sub.Opts = t.Kind, opts
+				c.Sub = append(c.Sub, sub)
+			}
+			execBurst(r, st, c, bt)
+		}
+	}
 }
